@@ -569,6 +569,15 @@ def pairs():
         await b.probe('Pipe(inf).transfer[tiny volume]', lambda: pipe.transfer(5e-324))
         unbounded = UnboundedPipe()
         await b.probe('UnboundedPipe.transfer[inf volume]', lambda: unbounded.transfer(inf))
+        await b.probe('UnboundedPipe.transfer[tiny volume, limit]',
+                      lambda: unbounded.transfer(5e-324, 4))
+        await b.probe('UnboundedPipe.transfer[underflowing quotient]',
+                      lambda: unbounded.transfer(1e-200, 1e200))
+        await b.probe('UnboundedPipe.transfer[tiny volume]', lambda: unbounded.transfer(5e-324))
+        await b.probe('Pipe(inf).transfer[underflowing quotient]',
+                      lambda: pipe.transfer(1e-200, 1e200))
+        await b.probe('Pipe.transfer[underflowing quotient]',
+                      lambda: finite.transfer(1e-200, 1e200) if False else Pipe(2).transfer(1e-320, 1))
         finite = Pipe(throughput=2)
         await b.probe('Pipe.transfer[tiny volume]', lambda: finite.transfer(5e-324))
         await b.probe('Pipe.transfer[positive, inf limit]', lambda: finite.transfer(1, inf))
